@@ -553,6 +553,84 @@ DETAIL["c09_recursion_tolerant_modes"] = lambda ni, mode, use_async: {"partial":
                                                                      "outcome within 10 s at the default limits": tolerant_recursion_outcome(ni, mode, use_async)}
 CONDITIONS.append({"fn": "c09_recursion_tolerant_modes", "quick": 60, "thorough": 120, "sel_only": True})
 
+# ---- T6b the same families with the recursive tags at block depth d, loaded by a caching or a plain (re-parsing) loader:
+# a non-caching loader parses the partial again at every level, so near the end of the Python stack the parser itself
+# meets the RecursionError --------------------------------------------------------------------------------------------
+_T6B_BODY = {"a3": "x{% render 'P' %}{% render 'P' %}{% render 'P' %}", "b3": "x{% include 'P' %}{% include 'P' %}{% include 'P' %}",
+             "c": "x{% for i in (1..2) %}{% render 'P' %}{% endfor %}", "t": "{% if true %}{% render 'P' %}{% endif %}{% include 'P' %}{% render 'P' %}",
+             "m": "{% macro f %}{% render 'P' %}{% render 'P' %}{% endmacro %}{% call f %}{% call f %}",
+             "w": "{% with q: 1 %}{% include 'P' %}{% endwith %}{% capture z %}{% include 'P' %}{% endcapture %}{% include 'P' %}"}
+_T6B_NAMES = sorted(_T6B_BODY)
+_T6B_DEPTHS = (0, 6, 12, 18, 24, 28)
+_T6B_WRAP = (("{% if true %}", "{% endif %}"), ("{% for q_ in (1..1) %}", "{% endfor %}"), ("{% capture cc %}", "{% endcapture %}{{ cc }}"))
+_T6B_ENVS = {}
+
+
+def block_depth_recursion_sweep(ni, mode, use_async, plain):
+    """[(depth, wrapper, outcome)] for every outcome other than completion or the documented cut-off."""
+    import warnings
+    from liquid import DictLoader
+    bad = []
+    key = (mode, plain)
+    if key not in _T6B_ENVS:
+        srcs = {}
+        for n in _T6B_NAMES:
+            for d in _T6B_DEPTHS:
+                for wi, (o, c) in enumerate(_T6B_WRAP):
+                    nm = "%s_%d_%d" % (n, d, wi)
+                    srcs[nm] = o * d + _T6B_BODY[n].replace("'P'", "'%s'" % nm) + c * d
+        cls = DictLoader if plain else CachingDictLoader
+        _T6B_ENVS[key] = Env(extra=True, tolerance=(Mode.STRICT, Mode.WARN, Mode.LAX)[mode], loader=cls(srcs))
+    env = _T6B_ENVS[key]
+    for d in _T6B_DEPTHS:
+        for wi in range(len(_T6B_WRAP)):
+            nm = "%s_%d_%d" % (_T6B_NAMES[ni], d, wi)
+            old = signal.signal(signal.SIGALRM, _alarm)
+            signal.alarm(10)
+            try:
+                with warnings.catch_warnings():
+                    warnings.simplefilter("ignore")
+                    try:
+                        t = env.get_template(nm)
+                        if use_async:
+                            from vf.hx import drive
+                            drive(t.render_async())
+                        else:
+                            t.render()
+                        r = "completed"
+                    except _Hang:
+                        r = "hang"
+                    except LiquidError as e:
+                        r = "liquid:" + type(e).__name__
+                    except Exception as e:
+                        r = type(e).__name__
+            finally:
+                signal.alarm(0)
+                signal.signal(signal.SIGALRM, old)
+            if r not in ("completed", "liquid:ContextDepthError"):
+                bad.append({"block depth": d, "wrapper": _T6B_WRAP[wi][0], "outcome within 10 s": r})
+                if r == "hang":
+                    return bad
+    return bad
+
+
+def c09_recursion_block_depth(ni: int, mode: int, use_async: bool, plain: bool) -> bool:
+    """
+    pre: 0 <= ni <= 5 and 0 <= mode <= 2
+    post: _
+    """
+    if excluded("c09_recursion_block_depth", locals()):
+        return True
+    from vf.hx import cbool
+    ni, mode, use_async, plain = cint(ni, 0, 5), cint(mode, 0, 2), cbool(use_async), cbool(plain)
+    return finish(untraced(lambda: not block_depth_recursion_sweep(ni, mode, use_async, plain)))
+
+
+DETAIL["c09_recursion_block_depth"] = lambda ni, mode, use_async, plain: {"partial body": _T6B_BODY[_T6B_NAMES[ni]], "mode": ("STRICT", "WARN", "LAX")[mode], "async": use_async,
+                                                                         "loader": "DictLoader" if plain else "CachingDictLoader", "failing": block_depth_recursion_sweep(ni, mode, use_async, plain)[:3]}
+CONDITIONS.append({"fn": "c09_recursion_block_depth", "quick": 120, "thorough": 240, "sel_only": True,
+                   "bounds": "6 self-recursive partial bodies x block depths 0,6,..,24,28 x 3 enclosing block kinds x 3 modes x sync/async x caching/plain dict loader; default limits; 10 s alarm"})
+
 # ---- T7 deeply nested blocks under extends (every block is rendered in a block-scoped copy of the context whose globals
 # chain onto the enclosing scope): a variable defined outside still resolves promptly at any depth the nesting limit allows
 _NB_ENVS = {}
